@@ -158,11 +158,15 @@ def san_run(args):
         return ("compile-timeout", "", "")
     if c.returncode != 0 or not os.path.exists(exe):
         return ("compile-failed", "", c.stderr.decode(errors="replace")[-600:])
+    renv = dict(os.environ, ASAN_OPTIONS="detect_leaks=0:abort_on_error=0", UBSAN_OPTIONS="halt_on_error=1:print_stacktrace=0", NANO_GC_THRESHOLD_MB="1")
     try:
-        r = subprocess.run([exe], stdout=subprocess.PIPE, stderr=subprocess.PIPE, timeout=60,
-                           env=dict(os.environ, ASAN_OPTIONS="detect_leaks=0:abort_on_error=0", UBSAN_OPTIONS="halt_on_error=1:print_stacktrace=0", NANO_GC_THRESHOLD_MB="1"))
+        r = subprocess.run([exe], stdout=subprocess.PIPE, stderr=subprocess.PIPE, timeout=60, env=renv)
     except subprocess.TimeoutExpired:
-        return ("run-timeout", "", "")
+        # a slow run on a loaded machine is not a finding: once more with ten times the budget before it is reported as not finishing
+        try:
+            r = subprocess.run([exe], stdout=subprocess.PIPE, stderr=subprocess.PIPE, timeout=600, env=renv)
+        except subprocess.TimeoutExpired:
+            return ("run-timeout", "", "")
     err = r.stderr.decode(errors="replace")
     hit = [l for l in err.splitlines() if "AddressSanitizer" in l or "runtime error:" in l or "LeakSanitizer" in l]
     return (r.returncode, r.stdout.decode(errors="replace")[-200:], "\n".join(hit[:3]) + "\n" + err[:1200])
